@@ -1918,3 +1918,61 @@ def normal_emission(prog, em, attr_order: bool = False):
          for k, subs in em[1] if not is_init(k)],
         [r[0] for r in em[2]],
     ]
+
+
+def skeleton3_programs(max_i2: int = 2, max_n: int = 1) -> Iterator[tuple[dict, str]]:
+    """Exhaustive family aimed at *owners of bodies that are themselves shared*: a control-flow node
+    `i2 = If(e, then: n + x [or a nested If closing over n], else: x)` whose body closes over the
+    NON-ARGUMENT outer value `n = -x`; `i2`'s output is used in every subset (1 ≤ size ≤ max_i2) and
+    `n` itself in every subset (size ≤ max_n) of the seven graphs
+
+        main ▸ If A { then ▸ If B { then, else },  else ▸ If C { then, else } }
+
+    so the owner `i2` is lifted to an outer scope by a later user at another depth while its bodies'
+    closure values must follow.  Yields (prog, tag)."""
+    places = ["main", "A.then", "A.else", "B.then", "B.else", "C.then", "C.else"]
+    for nested in (False, True):
+        for r in range(1, max_i2 + 1):
+            for ui in itertools.combinations(range(7), r):
+                for q in range(0, max_n + 1):
+                    for un in itertools.combinations(range(7), q):
+                        tag = "i2@" + "+".join(places[u] for u in ui) + " n@" + "+".join(places[u] for u in un)
+                        yield _skeleton3(set(ui), set(un), nested), tag + ("/nested" if nested else "")
+
+
+def _skeleton3(u_i2: set, u_n: set, nested: bool) -> dict:
+    nodes: list[dict] = []
+
+    def add(op, ins=(), subs=(), attrs=None, tys=()):
+        nodes.append({"op": op, "ins": [list(r) if r else None for r in ins], "subs": list(subs), "attrs": dict(attrs or {}), "ty": [list(t) for t in tys]})
+        return len(nodes) - 1
+
+    V = ty("i64", [N])
+    B_ = ty("bool", [])
+    x = add("arg", attrs={"role": "main"}, tys=[V])
+    c = add("arg", attrs={"role": "main"}, tys=[B_])
+    d = add("arg", attrs={"role": "main"}, tys=[B_])
+    e = add("arg", attrs={"role": "main"}, tys=[B_])
+    n = add("Neg", [(x, 0)], tys=[V])
+
+    def iff(cond, t, el):
+        return (add("If", [(cond, 0)], [{"args": [], "res": [list(t)]}, {"args": [], "res": [list(el)]}], tys=[V]), 0)
+
+    nx = (add("Add", [(n, 0), (x, 0)], tys=[V]), 0)
+    inner = iff(c, nx, (n, 0)) if nested else nx
+    i2 = iff(e, inner, (x, 0))
+
+    def use(place, base):
+        if place in u_i2:
+            base = (add("Add", [base, i2], tys=[V]), 0)
+        if place in u_n:
+            base = (add("Mul", [base, (n, 0)], tys=[V]), 0)
+        return base
+
+    b_out = iff(d, use(3, (x, 0)), use(4, (x, 0)))
+    at = use(1, b_out)
+    c_out = iff(d, use(5, (x, 0)), use(6, (x, 0)))
+    ae = use(2, c_out)
+    a_out = iff(c, at, ae)
+    out = use(0, a_out)
+    return {"nodes": nodes, "outputs": [list(out)], "opset": 17}
